@@ -106,9 +106,6 @@ Properties/C04.vos Properties/C04.vok Properties/C04.required_vos: Properties/C0
 Proofs/StaticProofs.vo Proofs/StaticProofs.glob Proofs/StaticProofs.v.beautified Proofs/StaticProofs.required_vo: Proofs/StaticProofs.v Compiler/Emit.vo Proofs/Utf8Proofs.vo Proofs/QuoteProofs.vo Proofs/EscapeProofs.vo Proofs/ChunkProofs.vo Proofs/EmitProofs.vo Proofs/PassThroughProofs.vo
 Proofs/StaticProofs.vio: Proofs/StaticProofs.v Compiler/Emit.vio Proofs/Utf8Proofs.vio Proofs/QuoteProofs.vio Proofs/EscapeProofs.vio Proofs/ChunkProofs.vio Proofs/EmitProofs.vio Proofs/PassThroughProofs.vio
 Proofs/StaticProofs.vos Proofs/StaticProofs.vok Proofs/StaticProofs.required_vos: Proofs/StaticProofs.v Compiler/Emit.vos Proofs/Utf8Proofs.vos Proofs/QuoteProofs.vos Proofs/EscapeProofs.vos Proofs/ChunkProofs.vos Proofs/EmitProofs.vos Proofs/PassThroughProofs.vos
-Properties/C01.vo Properties/C01.glob Properties/C01.v.beautified Properties/C01.required_vo: Properties/C01.v Compiler/Compile.vo Proofs/Utf8Proofs.vo Proofs/QuoteProofs.vo Proofs/EmitProofs.vo Proofs/StaticProofs.vo
-Properties/C01.vio: Properties/C01.v Compiler/Compile.vio Proofs/Utf8Proofs.vio Proofs/QuoteProofs.vio Proofs/EmitProofs.vio Proofs/StaticProofs.vio
-Properties/C01.vos Properties/C01.vok Properties/C01.required_vos: Properties/C01.v Compiler/Compile.vos Proofs/Utf8Proofs.vos Proofs/QuoteProofs.vos Proofs/EmitProofs.vos Proofs/StaticProofs.vos
 Properties/C05.vo Properties/C05.glob Properties/C05.v.beautified Properties/C05.required_vo: Properties/C05.v Runtime/Children.vo Proofs/RuntimeProofs.vo
 Properties/C05.vio: Properties/C05.v Runtime/Children.vio Proofs/RuntimeProofs.vio
 Properties/C05.vos Properties/C05.vok Properties/C05.required_vos: Properties/C05.v Runtime/Children.vos Proofs/RuntimeProofs.vos
@@ -169,6 +166,12 @@ Proofs/RuntimeProofs.vos Proofs/RuntimeProofs.vok Proofs/RuntimeProofs.required_
 Proofs/NukeProofs.vo Proofs/NukeProofs.glob Proofs/NukeProofs.v.beautified Proofs/NukeProofs.required_vo: Proofs/NukeProofs.v Base/Regex.vo
 Proofs/NukeProofs.vio: Proofs/NukeProofs.v Base/Regex.vio
 Proofs/NukeProofs.vos Proofs/NukeProofs.vok Proofs/NukeProofs.required_vos: Proofs/NukeProofs.v Base/Regex.vos
+Proofs/StaticNukeProofs.vo Proofs/StaticNukeProofs.glob Proofs/StaticNukeProofs.v.beautified Proofs/StaticNukeProofs.required_vo: Proofs/StaticNukeProofs.v Compiler/Emit.vo Base/Regex.vo Proofs/NukeProofs.vo Proofs/EmitProofs.vo Proofs/StaticProofs.vo
+Proofs/StaticNukeProofs.vio: Proofs/StaticNukeProofs.v Compiler/Emit.vio Base/Regex.vio Proofs/NukeProofs.vio Proofs/EmitProofs.vio Proofs/StaticProofs.vio
+Proofs/StaticNukeProofs.vos Proofs/StaticNukeProofs.vok Proofs/StaticNukeProofs.required_vos: Proofs/StaticNukeProofs.v Compiler/Emit.vos Base/Regex.vos Proofs/NukeProofs.vos Proofs/EmitProofs.vos Proofs/StaticProofs.vos
+Properties/C01.vo Properties/C01.glob Properties/C01.v.beautified Properties/C01.required_vo: Properties/C01.v Compiler/Compile.vo Base/Regex.vo Proofs/Utf8Proofs.vo Proofs/QuoteProofs.vo Proofs/EmitProofs.vo Proofs/StaticProofs.vo Proofs/StaticNukeProofs.vo
+Properties/C01.vio: Properties/C01.v Compiler/Compile.vio Base/Regex.vio Proofs/Utf8Proofs.vio Proofs/QuoteProofs.vio Proofs/EmitProofs.vio Proofs/StaticProofs.vio Proofs/StaticNukeProofs.vio
+Properties/C01.vos Properties/C01.vok Properties/C01.required_vos: Properties/C01.v Compiler/Compile.vos Base/Regex.vos Proofs/Utf8Proofs.vos Proofs/QuoteProofs.vos Proofs/EmitProofs.vos Proofs/StaticProofs.vos Proofs/StaticNukeProofs.vos
 Proofs/SrcMapProofs.vo Proofs/SrcMapProofs.glob Proofs/SrcMapProofs.v.beautified Proofs/SrcMapProofs.required_vo: Proofs/SrcMapProofs.v Compiler/SrcMap.vo
 Proofs/SrcMapProofs.vio: Proofs/SrcMapProofs.v Compiler/SrcMap.vio
 Proofs/SrcMapProofs.vos Proofs/SrcMapProofs.vok Proofs/SrcMapProofs.required_vos: Proofs/SrcMapProofs.v Compiler/SrcMap.vos
